@@ -649,12 +649,12 @@ func main() {
 		db = [][2]int{{3, 3}, {4, 4}}
 		dr = [][3]int{{2, 2, 2}, {3, 2, 2}}
 	}
-	enumMC3(r, d3)
-	enumMS2(r, d2)
-	enumBitmap(r, db)
-	enumGenerators(r)
-	enumRectSet(r, dr)
-	enumHeightMap(r)
+	r.Isolate("mc3", func() { enumMC3(r, d3) })
+	r.Isolate("ms2", func() { enumMS2(r, d2) })
+	r.Isolate("bitmap", func() { enumBitmap(r, db) })
+	r.Isolate("generators", func() { enumGenerators(r) })
+	r.Isolate("rectset", func() { enumRectSet(r, dr) })
+	r.Isolate("heightmap", func() { enumHeightMap(r) })
 	r.Set("mc3_blocks", d3)
 	r.Set("ms2_blocks", d2)
 	r.Set("bitmap_sizes", db)
